@@ -202,6 +202,44 @@ def run(ctx):
                         "compare(%s, %s) %s the float to an integer but compare(%s, %s) %s: e.g. 1 vs 1.5 is Equal one way and Greater/Less the other" % (
                             a, b, "truncates" if t1 else "does not truncate", b, a, "truncates" if t2 else "does not truncate"))
 
+    with ctx.rule("C19.R4b", "T5", "a fallible narrowing to a signed integer must not fall back to one constant (the value may be too large or too small)", floor=2) as r:
+        SIGNED = ("to_i8", "to_i16", "to_i32", "to_i64", "to_i128", "to_isize")
+        n = 0
+        for c in cmp_b.calls:
+            tgt = c.callee.get("self_ty") or c.callee.get("arg0_ty") or ""
+            narrow_signed = c.name in SIGNED or (c.via_name == "try_from" and tgt in ("i8", "i16", "i32", "i64", "i128", "isize"))
+            narrow_unsigned = c.name in ("to_u8", "to_u16", "to_u32", "to_u64", "to_u128", "to_usize", "to_biguint") or (c.via_name == "try_from" and (tgt in ("u8", "u16", "u32", "u64", "u128", "usize") or "BigUint" in tgt))
+            if not (narrow_signed or narrow_unsigned):
+                continue
+            n += 1
+            g = dom_guards(cmp_b, c.block)
+            a = [l for d, l, _ in g if d == "disc(self)"]
+            bb = [l for d, l, _ in g if d == "disc(other)"]
+            tag = "%s-%s/%s" % (a[0] if a else "?", bb[0] if bb else "?", c.name)
+            fail = None
+            for si in cmp_b.result_switches(c):
+                ve = cmp_b.variant_edges(si["block"])
+                if ve:
+                    fail = ve.get("None") if "None" in ve else ve.get("Err")
+            if fail is None:
+                r.ok("compare/%s/narrowing-no-fallback" % tag, loc, "the conversion's failure is not turned into a constant")
+                continue
+            consts = []
+            for i, j, p, rv, line in cmp_b.assigns():
+                if p[0] == 0 and not p[1] and cmp_b.dominates(fail, i):
+                    d = describe_rvalue(cmp_b, rv)
+                    if d.startswith("Ordering::"):
+                        sign_aware = any(("is_negative" in dd or "is_positive" in dd or "sign" in dd) for dd, l, _ in dom_guards(cmp_b, i) if cmp_b.dominates(fail, _))
+                        consts.append((d, sign_aware))
+            if narrow_signed:
+                r.check(all(sa for _, sa in consts) or not consts, "compare/%s/signed-narrowing-fallback-sign-aware" % tag, loc,
+                        "fallback after %s is decided by the sign of the value" % c.name,
+                        "when %s fails the comparison returns the constant %s whatever the sign: a value below the target's minimum is ordered like one above its maximum (antisymmetry and transitivity break for such values)" % (c.name, [d for d, _ in consts]))
+            else:
+                r.ok("compare/%s/unsigned-narrowing" % tag, loc, "narrowing to an unsigned type fails only for negative values: a single fallback (%s) suffices" % [d for d, _ in consts])
+        if n < 2:
+            raise AnchorMissing("expected narrowing conversions in Value::compare, found %d" % n)
+
     with ctx.rule("C19.R5", "T10", "Item and Attr: ordering consistent with the derived equality", floor=5) as r:
         it = ctx.saw(m.fn(name="compare", self_adt="item::Item"))
         ic = table(it)
